@@ -715,6 +715,12 @@ pub fn drive_dec(spec: &DecSpec, mode: DecMode, source: &mut dyn OpSource, mut p
                 last_kind = Some(offer.kind);
                 last_offer = Some(offer.clone());
                 kinds_mask |= 1 << offer.kind;
+                if spec.bom != Bom::Off && (1..=2).contains(&consumed) && !pending.is_empty() && crate::props::bom_open(spec.enc, spec.bom, &spec.stream[..consumed]) && !crate::props::bom_open(spec.enc, spec.bom, &spec.stream[..consumed + 1]) && crate::props::bom_model(spec.enc, spec.bom, &spec.stream[..consumed + 1]).1 == 0 {
+                    run.probe("withheld_bom_lookalike_replayed");
+                    if cap == min {
+                        run.probe("withheld_bom_lookalike_replayed_at_min_sink");
+                    }
+                }
                 if !run.calls.is_empty() && proxy != initial_proxy {
                     noninitial_call = true;
                     if last_full {
@@ -750,6 +756,7 @@ pub fn drive_dec(spec: &DecSpec, mode: DecMode, source: &mut dyn OpSource, mut p
                 }
                 if let Some(p) = outs.iter().find_map(|o| o.panicked.clone()) {
                     run.aborted = Some(format!("panic: {}", p));
+                    run.consumed = consumed;
                     run.ops = source.recorded().to_vec();
                     return run;
                 }
